@@ -96,10 +96,20 @@ WTOK = re.compile(r"'(?:[^'\\]|%s|'')*'|\"(?:[^\"\\]|%s|\"\")*\"|\.\.\.|(?<![A-Z
 VARLIKE = re.compile(r"^(?:_[A-Za-z0-9_]*|[A-Z][A-Za-z0-9_]*)$")
 
 
+WTOK_NQ = re.compile(r"\.\.\.|(?<![A-Za-z0-9_])(?:_[A-Za-z0-9_]*|[A-Z][A-Za-z0-9_]*)|.", re.S)
+
+
 def compare_texts(ctxt, ftxt, given):
     """chars text vs stream text -> identical | renaming | depth | collision | differs"""
     if ctxt == ftxt: return "identical"
-    a, b = [t for t in WTOK.findall(ctxt) if t != " "], [t for t in WTOK.findall(ftxt) if t != " "]
+    r = compare_tokens(WTOK, ctxt, ftxt, given)
+    if r == "differs":       # unquoted output may contain lone quote characters: retry without treating quotes specially
+        r = compare_tokens(WTOK_NQ, ctxt, ftxt, given)
+    return r
+
+
+def compare_tokens(tok, ctxt, ftxt, given):
+    a, b = [t for t in tok.findall(ctxt) if t != " "], [t for t in tok.findall(ftxt) if t != " "]
     if len(a) != len(b) or a == b: return "differs"         # (a == b: the texts differ in spacing only)
     f, g = {}, {}
     depth = collision = False
@@ -125,8 +135,8 @@ def val(b, k):
 
 def run(ctx):
     rng = ctx.rng
-    nw = ctx.scale(2600, 60000)
-    nr = ctx.scale(2600, 60000)
+    nw = ctx.scale(4000, 60000)
+    nr = ctx.scale(4000, 60000)
     d = "/var/tmp/verif_c50_%d" % os.getpid()
     shutil.rmtree(d, ignore_errors=True)
     os.makedirs(d)
@@ -145,7 +155,7 @@ def run(ctx):
         fixed = [("f(X0,X1,X0)", "[quoted(true),variable_names(['Foo'=X0])]"), ("f(X0,X1)", "[]"), ("f('$VAR'(0),X0)", "[numbervars(true)]"),
                  ("f('$VAR'(1),X0,X1)", "[numbervars(true),variable_names(['A'=X0])]"), ("- (1)", "[]"), ("-(-(1))", "[]"), ("1 - (-1)", "[]"), ("- a", "[]"), ("\\+ (a,b)", "[quoted(true)]"),
                  ("f((a,b))", "[]"), ("[(a:-b)]", "[]"), ("{a,b}", "[]"), ("\"abc\"", "[double_quotes(true)]"), ("'hello world'", "[quoted(true)]"), ("[a|X0]", "[]"),
-                 ("2**(-1)", "[]"), ("a=(b=c)", "[]"), ("(a:-b):-c", "[]"), ("f(:-)", "[]"), ("[a,[b,[c,[d]]]]", "[max_depth(2)]"), ("foo", "[foo]"), ("foo", "_")]
+                 ("2**(-1)", "[]"), ("a=(b=c)", "[]"), ("(a:-b):-c", "[]"), ("f(:-)", "[]"), ("[a,[b,[c,[d]]]]", "[max_depth(2)]"), ("foo", "[foo]"), ("foo", "_"), ("g(X0)", "[max_depth(1)]"), ("'A'(X0)", "[]"), ("f(X0,'$VAR'(0))", "[numbervars(true),quoted(true)]")]
         for t, o in fixed:
             wcases.append((t, o, True))
         while len(wcases) < nw:
@@ -202,7 +212,7 @@ def run(ctx):
             ctxt = "".join(x[1] for x in items)
             if re.search(r"[^a-z0-9_(),]", ftxt): nontriv.add((t, o))
             if len(samples) < 5 and i >= len(fixed): samples.append({"write": t, "options": o, "chars": ctxt, "stream": ftxt})
-            given = set(re.findall(r"'([A-Za-z_0-9]+)'=", o))
+            given = set(re.findall(r"'([A-Za-z_0-9]+)'=", o)) if o.count("variable_names(") == 1 else set()
             cls = compare_texts(ctxt, ftxt, given)
             dist["write"][cls] = dist["write"].get(cls, 0) + 1
             if cls == "identical":
